@@ -47,9 +47,12 @@ class HarnessError(RuntimeError):
     pass
 
 
-# finding (reported, not repaired): load_jugfile of the cached mode looks dependencies up among the EARLIER tasks only
-REFUSED = 'cached status refuses a jugfile whose tasks are not created in dependency order'
-REFUSED_CLASS = 'cached-status-rejects-late-created-dependency'
+# The status cache deliberately rejects jugfiles in which a dependency is created after its consumer (a container
+# filled after the task that received it was made): load_jugfile looks dependencies up among the EARLIER tasks and
+# says "Could not build dependency graph! ... A common error is to build a Task with a mutable argument and
+# subsequently modifying." - exit 1, no table, no cache.  That refusal is the EXPECTED behaviour of the cached mode
+# on such jugfiles (the code's documented precondition), it is modelled (load_jugfile = None) and compared.
+REFUSED = 'cached status must refuse exactly the jugfiles whose tasks are not created in dependency order'
 
 
 def end_process():
@@ -276,15 +279,24 @@ def run_history(spec, backend, root, rng, short):
 
 def oracle(info, otasks, h_of, steps):
     bad = []
+    # created in dependency order, judged on the generator's own (syntactic) dependencies
+    seen, in_order = set(), True
+    for tid, _, _, deps in otasks:
+        if any(h_of[x] not in seen for x in deps):
+            in_order = False
+        seen.add(h_of[tid])
     for k, o in enumerate(steps):
         stored, locks = set(o['stored']), dict(o['locks'])
         rows, total = spec_tables(otasks, h_of, stored, locks)
         for mode in ('plain', 'cached'):
             t = o[mode]['table']
-            if mode == 'cached' and o['cached']['refused']:
-                if k == 0:
-                    bad.append((REFUSED, 'the table of the uncached command: %s' % (o['plain']['table'],),
-                                'exit 1: ' + o['cached']['err'][:120]))
+            if mode == 'cached' and (o['cached']['refused'] or not in_order):
+                if not (o['cached']['refused'] and not in_order):
+                    bad.append((REFUSED + ' at call %d' % k, 'refusal (exit 1, message)' if not in_order else 'a status table',
+                                'exit %r: %s %s' % (o['cached']['exit'], o['cached']['text'][-200:], o['cached']['err'][:200])))
+                elif o['cached']['table'] is not None or o['db'] is not None:
+                    bad.append(('a refused cached call prints no table and writes no cache at call %d' % k, 'nothing',
+                                'table %s, cache rows %s' % (o['cached']['table'], o['db'])))
                 continue
             if t is None:
                 bad.append(('%s status output at call %d' % (mode, k), 'a status table', o[mode]['text'][-300:] + o[mode]['err']))
@@ -295,7 +307,7 @@ def oracle(info, otasks, h_of, steps):
                 bad.append(('%s status Total row at call %d' % (mode, k), total, t[1]))
             if o[mode]['exit'] != total[3]:
                 bad.append(('%s status exit code at call %d' % (mode, k), total[3], o[mode]['exit']))
-        if o['plain']['table'] is not None and o['cached']['table'] is not None and o['plain']['table'] != o['cached']['table']:
+        if in_order and o['plain']['table'] is not None and o['cached']['table'] is not None and o['plain']['table'] != o['cached']['table']:
             bad.append(('cached = uncached at call %d' % k, o['plain']['table'], o['cached']['table']))
         if 'short' in o:
             exp = (total[1] + total[2], total[0], total[3], total[4])
@@ -424,7 +436,7 @@ def run(ck):
         'C15: the graph handed to the model is what Task.dependencies() of the real objects yields; redis is the in-process '
         'fake; the parsers of the printed status table and of the sqlite cache file; sqlite3 itself',
     ]
-    ck.assumptions = ['cached = uncached needs ordered_dag (every dependency created before its consumer); for the other well-formed graphs the model says, and the tie confirms, that the cached command exits 1 (finding, class %s)' % REFUSED_CLASS,
+    ck.assumptions = ['cached = uncached needs ordered_dag (every dependency created before its consumer: the documented precondition of the status cache); for the other well-formed graphs the model says, and the tie confirms, that the cached command refuses (exit 1, message, no table, no cache)',
                       'cached = uncached only along histories in which results are not removed between calls (the hypothesis '
                       'of the property); jugfile unchanged between cached calls',
                       'store and locks are not modified while a command runs']
@@ -450,10 +462,6 @@ def run(ck):
                 meta = {'spec': spec, 'backend': backend, 'short': short, 'graph': info,
                         'history': [[o['stored'], o['locks']] for o in steps], 'observed': summarize(steps)}
                 for clause, exp, got in oracle(info, otasks, h_of, steps):
-                    if clause == REFUSED:
-                        ck.violation({'kind': 'impl-violation', 'what': REFUSED, 'class': REFUSED_CLASS,
-                                      'clause': clause, 'expected': exp, 'observed_value': got, **meta})
-                        continue
                     ck.violation({'kind': 'impl-violation', 'what': 'status/check on %s: %s' % (backend, re.sub(r' at call \d+', '', clause)),
                                   'clause': clause, 'expected': exp, 'observed_value': got, **meta})
                 lit, ids, nids = case_lit(info, steps)
